@@ -75,6 +75,7 @@ def tokenize_block(iterable, token_types, start_line=1):
     """
     lines = FileWrapper(iterable, start_line=start_line)
     parse_buffer = ParseBuffer()
+    blank_line_pending = False
     line = lines.peek()
     while line is not None:
         for token_type in token_types:
@@ -82,11 +83,15 @@ def tokenize_block(iterable, token_types, start_line=1):
                 line_number = lines.line_number() + 1
                 result = token_type.read(lines)
                 if result is not None:
+                    if blank_line_pending and parse_buffer:
+                        parse_buffer.loose_inside = True
+                    blank_line_pending = False
                     parse_buffer.append((token_type, result, line_number))
                     break
         else:  # unmatched newlines
             next(lines)
             parse_buffer.loose = True
+            blank_line_pending = True
         line = lines.peek()
     return parse_buffer
 
@@ -115,4 +120,7 @@ class ParseBuffer(list):
     """
     def __init__(self, *args):
         super().__init__(*args)
+        # there is a blank line somewhere (also after the last block)
         self.loose = False
+        # there is a blank line between two blocks
+        self.loose_inside = False
